@@ -1,4 +1,4 @@
-package jsonrpc
+package executor
 
 import (
 	"bytes"
@@ -7,8 +7,9 @@ import (
 
 	logging "github.com/ipfs/go-log/v2"
 
+	"github.com/evstack/ev-node/apps/testapp/internal/zzsym"
 	"github.com/evstack/ev-node/core/da"
-	"github.com/evstack/ev-node/da/internal/zzsym"
+	proxy "github.com/evstack/ev-node/da/jsonrpc"
 )
 
 // ZZ_C16_size_filter: client-side size filtering of SubmitWithOptions against a
@@ -28,7 +29,7 @@ func ZZ_C16_size_filter() {
 	max := zzsym.U64("max")
 	var sent [][]byte
 	calls := 0
-	api := &API{Logger: logging.Logger("zz"), MaxBlobSize: max}
+	api := &proxy.API{Logger: logging.Logger("zz"), MaxBlobSize: max}
 	api.Internal.SubmitWithOptions = func(_ context.Context, bs []da.Blob, _ float64, _ []byte, _ []byte) ([]da.ID, error) {
 		calls++
 		sent = bs
